@@ -51,4 +51,10 @@ class Macro:
 
         """
         pts = tuple([ProofTerm.atom(id, prev) for id, prev in prevs])
-        return self.get_proof_term(args, pts).export(prefix)
+        pt = self.get_proof_term(args, pts)
+        if pt.rule == 'atom':
+            # The proof term is one of the premises unchanged.  A cited line is
+            # not a derivation and cannot be exported: restate it by A --> A and
+            # modus ponens, so that the expansion consists of proof lines.
+            pt = ProofTerm.assume(pt.prop).implies_intr(pt.prop).implies_elim(pt)
+        return pt.export(prefix)
